@@ -4,9 +4,11 @@ ocaml/_build/driver_edif, command `file`) with the real reader (sdn.parse):
   * the same text goes through both; the real reader raising <-> the model answering `err`;
     both returning -> the canonical structures (edif_canon.canon(identifiers=True)) must be equal;
     the model answering `unsupported` (construct outside the modelled subset) is counted, not compared;
-  * everything the real reader RETURNS is also checked for well-formedness (edif_canon.wf): a
-    damaged file must make the reader raise, never hand back a half-built netlist (C15, EDIF part;
-    the model-side statement is Props/C15.v C15_edif_wf_or_error);
+  * everything the real reader RETURNS is also checked for well-formedness (edif_canon.wf: every
+    instance referenced, every port with a pin, ..): a damaged file must make the reader raise,
+    never hand back a half-built netlist (C15, EDIF part; the model-side statement is Props/C15.v
+    C15_edif_wf_or_error); a truncated valid file and a valid file followed by further tokens must be
+    refused (Props/C15.v C15_edif_truncated_rejected / C15_edif_trailing_rejected);
   * inputs: valid files (hand-written, generated, bundled) and single-token / single-construct
     corruptions of small files.
 
@@ -43,12 +45,16 @@ TINY = '''(edif (rename top "Top-Level") (edifVersion 2 0 0) (edifLevel 0) (keyw
     (net (rename b_0_ "b[0]") (joined (portRef (member b 1)) (portRef O (instanceRef u1))))
     (net (rename b_1_ "b[1]") (joined (portRef (member b 0)) (portRef O (instanceRef u2)) (portRef (member q 2) (instanceRef u3))))
     (net gnd (joined (portRef m (instanceRef u3)) (portRef m (instanceRef u4)) (portRef c_in)))))))
- (design (rename top "Top") (cellRef top (libraryRef work))))
+ (design (rename top "Top") (cellRef top (libraryRef work)) (property part (string "xc7a35t")) (comment "kept nowhere"))
+ (comment "after the design")
+ (external pads (edifLevel 0) (technology (numberDefinition))
+  (cell PAD (cellType GENERIC) (view netlist (viewType NETLIST) (interface (port (array (rename P "P[1:0]") 2) (direction INOUT)))))))
 '''
 
 TOKEN_RE = re.compile(r'\s+|"[^"]*"|[()]|[^\s()"]+')
 GARBAGE = ['zz_nosuch', '(', ')', '"', '"x"', '123', '-1', '0', '&', 'a*', 'rename', 'member', 'x_9_', '1_0', '()',
-           'userData', 'portRef', 'NETLIST', 'q', 'BUF', 'work', '5x', '(comment "c")', '(property p (integer 1))']
+           'userData', 'portRef', 'NETLIST', 'q', 'BUF', 'work', '5x', '(comment "c")', '(property p (integer 1))',
+           '(instance bare)', '(port (array z 0))', '(design d2 (cellRef top (libraryRef work)))', 'cellRef', 'libraryRef']
 KINDS = ['delete', 'duplicate', 'truncate', 'replace', 'garbage', 'swap', 'case', 'delete-construct',
          'duplicate-construct', 'move-construct', 'index', 'reref']
 
@@ -289,19 +295,6 @@ def judge(model, impl):
     return None
 
 
-def wf_cause(bad):
-    """known ways in which a returned netlist is not well formed (one cause per complaint)"""
-    causes = set()
-    for b in bad:
-        if 'has no reference' in b:
-            causes.add('instance-without-viewRef')
-        elif b.startswith('port ') and b.endswith('has no pins'):
-            causes.add('array-port-without-pins')
-        else:
-            return 'unexplained'
-    return '+'.join(sorted(causes)) if causes else 'unexplained'
-
-
 def tie_texts(cases, tmpdir, limit=10):
     """cases: list of (text, source, kind[, implementation result already computed]). Returns (disagreements, half_built, stats):
     disagreements = dicts in the format of edif_mech; half_built = oracle failures (the reader
@@ -328,9 +321,8 @@ def tie_texts(cases, tmpdir, limit=10):
                         'text': text, 'model': 'ok' if m[0] == 'ok' else 'err ' + m[1],
                         'implementation': impl[0] + ('' if impl[1] is None or impl[0] == 'ok' else ' ' + str(impl[1])), 'what': why})
         if impl[0] == 'ok' and impl[2]:
-            cause = wf_cause(impl[2])
             half.append(({'kind': 'reader-returns-half-built-netlist', 'detail': impl[2][:4],
-                          'signature': 'reader-returns-half-built-netlist|' + cause}, text, source, kind))
+                          'signature': 'reader-returns-half-built-netlist|unexplained'}, text, source, kind))
             stats['returned-not-well-formed'] += 1
     return bad, half, stats
 
